@@ -959,9 +959,12 @@ theorem runWrites_inv (cw : CodecW) (D : Bytes → Option Bytes) (hc : CodecCont
 theorem closeStep4_none (cw : CodecW) (w : Writer) (h : (Writer.closeStep4 cw w).err = none) :
     w.err = none ∧ (Writer.closeStep4 cw w).chunkWriter = w.chunkWriter := by
   unfold Writer.closeStep4 at h ⊢
-  by_cases e : w.err.isNone = true
-  · rw [if_pos e]; exact ⟨by simpa using e, rfl⟩
-  · rw [if_neg e] at h; simp [h] at e
+  by_cases hn : w.nilCodecWriter = true
+  · rw [if_pos hn] at h ⊢; exact ⟨h, rfl⟩
+  · rw [if_neg hn] at h ⊢
+    by_cases e : w.err.isNone = true
+    · rw [if_pos e]; exact ⟨by simpa using e, rfl⟩
+    · rw [if_neg e] at h; simp [h] at e
 
 theorem closeStep3_none (w : Writer) (h : (Writer.closeStep3 w).err = none) :
     w.err = none ∧ (Writer.closeStep3 w).chunkWriter.log = w.chunkWriter.log := by
